@@ -1043,7 +1043,7 @@ func init() {
 				c08Sched(c, cs, true)
 			}
 		},
-		Post: func(m *mc.Master) { m.RacePass("dist") },
+		Post: func(m *mc.Master) { m.RacePass("dist"); m.RacePass("first/dist-") },
 		Vacuity: func(tier string, t *mc.Totals) error {
 			if t.Extra["executions_sched_cpus3"] < 50 || t.Extra["executions_fault_cpus2"] < 50 {
 				return fmt.Errorf("too few schedules explored: %v", t.Extra)
